@@ -221,6 +221,9 @@ def lens_for(m, quick):
     return sorted(x for x in ls if x >= 0)
 
 
+BUDGET = [0]          # runs left for the exploration of one configuration
+
+
 def shorts_for(m, quick):
     """Sizes k (1 <= k < m) of a short write: the raw write accepts k bytes and returns k, no error."""
     ks = {1, m // 2} if quick else {1, m // 2, m - 1}
@@ -231,6 +234,9 @@ def explore(cfg, root, quick, on_obs, die_jobs, plan=()):
     """Depth-first over the decision tree of the real code: every call reached beyond the forced
     prefix is made to fail / die (/ come back short, at most once per plan) in turn."""
     plan = [list(d) for d in plan]
+    BUDGET[0] -= 1
+    if BUDGET[0] < 0 or len(plan) > 24:
+        raise RuntimeError(f"the decision tree of the real save does not close (plan {plan})")
     obs = J.run_case(cfg, plan, root)
     on_obs(obs)
     evs = obs["events"]
@@ -496,6 +502,7 @@ def run(chk: Check) -> int:
     refs = {}
     for cfg in cfgs:
         n0, d0 = len(observations), len(die_jobs)
+        BUDGET[0] = 4000
         ref = explore(cfg, os.path.join(base, "inproc"), chk.quick, on_obs, die_jobs)
         refs[cfg_key(cfg)] = ref
         # the model has no "short" decision (a short write is a shorter chunk): its tree is compared
@@ -512,11 +519,13 @@ def run(chk: Check) -> int:
              {"layout": "bare", "prev": False, "compress": False, "via": "learner"}]
     learner_obs, ljobs = [], []
     for cfg in lcfgs:
+        BUDGET[0] = 4000
         explore(cfg, os.path.join(base, "inproc"), True, learner_obs.append, ljobs)
     # ... and with a payload larger than the I/O buffer (oracle only)
     nbig = 0
     if big_config():
         n0 = len(learner_obs) + len(ljobs)
+        BUDGET[0] = 4000
         explore(big_config(), os.path.join(base, "inproc"), True, learner_obs.append, ljobs)
         nbig = len(learner_obs) + len(ljobs) - n0
     # the real kernel makes the write come back short: RLIMIT_FSIZE in a forked child, nothing patched
